@@ -65,8 +65,19 @@ def point_symmetric(m):
 # how each constructor argument is handed over: the property quantifies over the VALUES; the library's docstring says
 # "ndarray" but lists, tuples, integer and single-precision arrays of the same values are the same configuration
 FIELDS = ("diam", "gs_alt", "gs_pos", "lam", "lalt", "r0", "L0")
-EXACT_KINDS = ("f64", "list", "tuple", "int", "intlist")     # same binary64 arithmetic as the model (geometry bit-exact)
+# round 5: "npslist" = list of numpy.float64 scalars, "i32" = int32 ndarray, "u64" = uint64 ndarray (never for gs_pos, which is signed), and float64 ndarrays in other memory layouts: "strided" (every second element of
+# a NaN-filled buffer), "neg" (negative strides), "ro" (read-only), "F" (Fortran order; 2-D gs_positions), "bcast" (stride-0
+# read-only broadcast when all entries are equal, else read-only)
+LAYOUT_KINDS = ("strided", "neg", "ro", "F", "bcast")
+INT_KINDS = ("int", "intlist", "i32", "u64")
+EXACT_KINDS = ("f64", "list", "tuple", "int", "intlist", "npslist", "i32", "u64") + LAYOUT_KINDS     # same binary64 arithmetic as the model (geometry bit-exact)
 ALL_KINDS = EXACT_KINDS + ("f32",)
+MASK_DTYPES = ("int64", "bool", "uint8", "int32", "float64", "float32")
+MASK_CONTAINERS = ("list", "tuple", "3d")          # "3d": one (n_wfs, ny, nx) ndarray when every mask has the same shape (as the test-suite does)
+MASK_LAYOUTS = ("C", "F", "strided", "ro")
+D_KINDS = ("float", "pyint", "np64", "np32", "0d")   # telescope_diameter: Python float / int, NumPy scalars, 0-d array (of the same value)
+N_KINDS = ("pyint", "np64", "np32")                 # n_wfs, n_layers
+CALL_KINDS = ("kw", "pos", "pos-nothreads", "kw-nothreads", "pkg", "pkg-pos")
 
 
 def _field_values(cfg, f):
@@ -85,8 +96,28 @@ def assign_types(cfg, rng, kinds=ALL_KINDS, p_plain=0.35):
     if rng.random() >= p_plain:
         for f in FIELDS:
             types[f] = rng.choice(kinds) if rng.random() < 0.6 else "f64"
+            # unsigned sub-aperture diameters are generated too: finding entry:uint-diameters (`subap2_diam - subap1_diam` wrapped
+            # around in compute_covariance_xx/yy for natural guide stars), fixed by e94659e
+            if types[f] == "u64" and f == "gs_pos":
+                types[f] = "i32"
+        # round 5: how the masks, the scalars and the call itself are handed over (values unchanged)
+        if rng.random() < 0.6:
+            types["mask"] = "%s|%s|%s" % (rng.choice(MASK_DTYPES), rng.choice(MASK_CONTAINERS), rng.choice(MASK_LAYOUTS))
+        if rng.random() < 0.4:
+            dk = rng.choice(D_KINDS)
+            if dk == "pyint" and cfg["D"] != int(cfg["D"]):
+                dk = "np64"
+            if dk == "np32" and float(numpy.float32(cfg["D"])) != cfg["D"]:
+                dk = "0d"
+            types["D"] = dk
+        if rng.random() < 0.3:
+            types["n"] = rng.choice(N_KINDS)
+        if rng.random() < 0.5:
+            types["call"] = rng.choice(CALL_KINDS)
     for f, k in list(types.items()):
-        if k in ("int", "intlist"):
+        if f not in FIELDS:
+            continue
+        if k in INT_KINDS:
             if f == "gs_pos":
                 for w in cfg["wfs"]:
                     w["gs_pos"] = [float(round(v)) for v in w["gs_pos"]]
@@ -168,7 +199,7 @@ def gen_cfg(rng, max_wfs=3, max_n=4, max_total=12, dyadic=False, lam_units=True,
 def retyped(cfg, field, **changes):
     """cfg with `changes`, the modified argument handed over as float64 where its old container could not hold the new values"""
     t = dict(cfg.get("types") or {})
-    if t.get(field) in ("int", "intlist", "f32"):
+    if t.get(field) in INT_KINDS + ("f32",):
         t[field] = "f64"
     out = dict(cfg, **changes)
     if t:
@@ -187,12 +218,41 @@ def classes(cfg):
     out.append("elevated-layer" if any(l["alt"] != 0 for l in cfg["layers"]) else "ground-only")
     out.append("nsub:" + ("equal" if len({sum(map(sum, w["mask"])) for w in cfg["wfs"]}) == 1 else "unequal"))
     for f, k in sorted((cfg.get("types") or {}).items()):
-        if k != "f64":
+        if f == "mask":
+            out += ["arg:mask:%s:%s" % kv for kv in zip(("dtype", "container", "layout"), k.split("|"))]
+        elif k != "f64":
             out.append("arg:%s:%s" % (f, k))
     return out
 
 
+def _layout(a, kind):
+    """the float64 array `a` (1-D or (n, 2)) in another memory layout, values unchanged"""
+    if kind == "strided":
+        big = numpy.full(tuple(2 * n + 1 for n in a.shape), numpy.nan)
+        v = big[tuple(slice(1, None, 2) for _ in a.shape)]
+        v[...] = a
+        return v
+    if kind == "neg":
+        rev = tuple(slice(None, None, -1) for _ in a.shape)
+        return a[rev].copy()[rev]
+    if kind == "F":
+        return numpy.asfortranarray(a)
+    if kind == "bcast" and len(a) and all(numpy.array_equal(a[0], r) for r in a):
+        return numpy.broadcast_to(numpy.array(a[0]), a.shape)
+    a = a.copy()
+    a.setflags(write=False)
+    return a
+
+
 def _conv(values, kind):
+    if kind in LAYOUT_KINDS:
+        return _layout(numpy.array(values, dtype=float), kind)
+    if kind == "npslist":
+        return [numpy.float64(v) for v in values]
+    if kind == "i32":
+        return numpy.array([int(v) for v in values], dtype=numpy.int32)
+    if kind == "u64":
+        return numpy.array([int(v) for v in values], dtype=numpy.uint64)
     if kind == "list":
         return [float(v) for v in values]
     if kind == "tuple":
@@ -207,11 +267,52 @@ def _conv(values, kind):
 
 
 def _conv2(rows, kind):
+    if kind in LAYOUT_KINDS:
+        return _layout(numpy.array(rows, dtype=float), kind)
+    if kind == "npslist":
+        return [numpy.array(r, dtype=float) for r in rows]          # a list of float64 arrays, one per sensor
+    if kind == "i32":
+        return numpy.array([[int(v) for v in r] for r in rows], dtype=numpy.int32)
     if kind in ("list", "tuple", "intlist"):
-        return [_conv(r, kind) for r in rows]
+        rows = [_conv(r, kind) for r in rows]
+        return tuple(rows) if kind == "tuple" else rows
     if kind == "int":
         return numpy.array([[int(v) for v in r] for r in rows], dtype=int)
     return numpy.array(rows, dtype=numpy.float32 if kind == "f32" else float)
+
+
+def _masks(ws, kind):
+    dt, cont, lay = (kind or "int64|list|C").split("|")
+    arrs = [numpy.array(w["mask"]).astype(dt) for w in ws]
+
+    def place(a):
+        if lay == "F":
+            return numpy.asfortranarray(a)
+        if lay == "strided":
+            big = numpy.full(tuple(2 * n + 1 for n in a.shape), 1 if dt == "bool" else 7, dtype=a.dtype)   # junk between the cells
+            v = big[tuple(slice(1, None, 2) for _ in a.shape)]
+            v[...] = a
+            return v
+        if lay == "ro":
+            a = a.copy()
+            a.setflags(write=False)
+        return a
+    if cont == "3d" and len({a.shape for a in arrs}) == 1:
+        return place(numpy.array(arrs))
+    arrs = [place(a) for a in arrs]
+    return tuple(arrs) if cont == "tuple" else arrs
+
+
+def _scalar(v, kind):
+    if kind == "pyint":
+        return int(v)
+    if kind == "np64":
+        return numpy.float64(v) if isinstance(v, float) else numpy.int64(v)
+    if kind == "np32":
+        return numpy.float32(v) if isinstance(v, float) else numpy.int32(v)
+    if kind == "0d":
+        return numpy.array(v)
+    return v
 
 
 def make_inputs(cfg, as_lists=False):
@@ -221,22 +322,38 @@ def make_inputs(cfg, as_lists=False):
     if as_lists:
         t = {f: "list" for f in FIELDS}
     k = lambda f: t.get(f, "f64")
-    return {"n_wfs": len(ws), "pupil_masks": [numpy.array(w["mask"]) for w in ws], "telescope_diameter": cfg["D"],
+    return {"n_wfs": _scalar(len(ws), t.get("n", "pyint")), "pupil_masks": _masks(ws, t.get("mask")),
+            "telescope_diameter": _scalar(cfg["D"], t.get("D", "float")),
             "subap_diameters": _conv([w["diam"] for w in ws], k("diam")),
             "gs_altitudes": _conv([w["gs_alt"] for w in ws], k("gs_alt")),
             "gs_positions": _conv2([w["gs_pos"] for w in ws], k("gs_pos")),
             "wfs_wavelengths": _conv([w["lam"] for w in ws], k("lam")),
-            "n_layers": len(ls), "layer_altitudes": _conv([l["alt"] for l in ls], k("lalt")),
+            "n_layers": _scalar(len(ls), t.get("n", "pyint")), "layer_altitudes": _conv([l["alt"] for l in ls], k("lalt")),
             "layer_r0s": _conv([l["r0"] for l in ls], k("r0")), "layer_L0s": _conv([l["L0"] for l in ls], k("L0"))}
 
 
-def object_from(inputs, threads=1):
+ARG_ORDER = ("n_wfs", "pupil_masks", "telescope_diameter", "subap_diameters", "gs_altitudes", "gs_positions", "wfs_wavelengths",
+             "n_layers", "layer_altitudes", "layer_r0s", "layer_L0s")
+
+
+def object_from(inputs, threads=1, call=None):
+    """construct the object; `call` = how: keywords (default) / positionally, `threads` given or left to its default (serial only),
+    through the module or through the package-level names the test-suite uses"""
+    import aotools
     from aotools.turbulence import slopecovariance as sc
-    return sc.CovarianceMatrix(threads=threads, **inputs)
+    call = call or "kw"
+    cls = {"pkg": aotools.CovarianceMatrix, "pkg-pos": aotools.turbulence.CovarianceMatrix}.get(call, sc.CovarianceMatrix)
+    if call in ("pos", "pkg-pos"):
+        return cls(*([inputs[a] for a in ARG_ORDER] + [threads]))
+    if call == "pos-nothreads":
+        return cls(*[inputs[a] for a in ARG_ORDER]) if threads == 1 else cls(*[inputs[a] for a in ARG_ORDER], threads=threads)
+    if call == "kw-nothreads" and threads == 1:
+        return cls(**inputs)
+    return cls(threads=threads, **inputs)
 
 
 def make_object(cfg, threads=1, as_lists=False):
-    return object_from(make_inputs(cfg, as_lists), threads)
+    return object_from(make_inputs(cfg, as_lists), threads, (cfg.get("types") or {}).get("call"))
 
 
 def snapshot(x):
@@ -317,9 +434,10 @@ def check_config(cfg, fail, extra=True, tag=""):
     before = copy.deepcopy(cfg)
     inputs = make_inputs(cfg)
     snap = snapshot(inputs)              # taken BEFORE the library sees the arguments
+    call = (cfg.get("types") or {}).get("call")
     try:
         with numpy.errstate(all="ignore"):
-            got = object_from(inputs).make_covariance_matrix()
+            got = object_from(inputs, call=call).make_covariance_matrix()
     except Exception as ex:
         how = ",".join("%s:%s" % (f, k) for f, k in sorted((cfg.get("types") or {}).items()) if k != "f64")
         fail("raises:" + type(ex).__name__, "%smake_covariance_matrix raised %s: %s%s"
@@ -365,7 +483,7 @@ def check_config(cfg, fail, extra=True, tag=""):
     # converted or shifted in place shows here even where the first build is right)
     try:
         with numpy.errstate(all="ignore"):
-            again = object_from(inputs).make_covariance_matrix()
+            again = object_from(inputs, call=call).make_covariance_matrix()
         if again.shape != got.shape or not numpy.array_equal(again, got):
             fail("repeat-call:same-arguments", "%sa second CovarianceMatrix built from the same argument objects returns a different "
                  "matrix (max difference %.3g, max |entry| %.3g)" % (
@@ -459,6 +577,211 @@ def check_scalings(cfg, rng, fail):
     if numpy.abs(m3 - want).max() > tol * max(mus) ** 2:
         fail("scale-wavelength", "wavelengths × %s: block (i,j) is not × μ_i μ_j (max deviation %.3g, scale %.3g)"
              % (mus, numpy.abs(m3 - want).max(), scale))
+
+
+# --------------------------------------------------------------------------------------------- round 5: sizes, magnitudes, histories
+def _sensor(rng, D, n, unit=1.0):
+    return {"diam": D / n * (1.0 if rng.random() < 0.7 else rng.choice([0.8, 1.25, 0.5])),
+            "gs_alt": rng.choice([0.0, rng.uniform(20000., 30000.), 90000.0]),
+            "gs_pos": [0.0, 0.0] if rng.random() < 0.3 else [rng.uniform(-40, 40), rng.uniform(-40, 40)],
+            "lam": rng.choice([5e-7, 5.89e-7, 1.65e-6]) * unit}
+
+
+def _layer(rng):
+    return {"alt": rng.choice([0.0, rng.uniform(100., 18000.)]), "r0": math.exp(rng.uniform(math.log(0.05), math.log(1.0))),
+            "L0": math.exp(rng.uniform(math.log(2.0), math.log(200.))) if rng.random() < 0.7
+            else math.exp(rng.uniform(math.log(200.), math.log(2e4)))}
+
+
+def gen_big(rng, thorough=False, shape=None):
+    """systems beyond gen_cfg's 12 sub-apertures / 4x4 masks / 4 sensors / 4 layers: one large sensor (up to 10x10, thorough 14x14),
+    two medium sensors with different counts, many small sensors, many layers, long thin masks"""
+    shape = shape or rng.choice(["one-large", "two-medium", "many-sensors", "many-layers", "thin"])
+    D = rng.choice([4.0, 4.2, 8.0, 39.0])
+    unit = rng.choice([1.0, 1.0, 1e6, 1e9])
+    nl = rng.randint(1, 2)
+    dims = []
+    if shape == "one-large":
+        n = rng.randint(7, 14 if thorough else 10)
+        dims = [(n, n)] + ([(2, 2)] if rng.random() < 0.3 else [])
+    elif shape == "two-medium":
+        dims = [(rng.randint(5, 7),) * 2, (rng.randint(4, 7),) * 2]
+    elif shape == "many-sensors":
+        dims = [(rng.randint(1, 2), rng.randint(1, 2)) for _ in range(rng.randint(5, 12 if thorough else 8))]
+    elif shape == "many-layers":
+        dims = [(rng.randint(1, 3),) * 2 for _ in range(rng.randint(1, 3))]
+        nl = rng.randint(6, 35 if thorough else 12)
+    else:
+        k = rng.randint(5, 12)
+        dims = [rng.choice([(1, k), (k, 1), (2, k), (k, 2)])] + ([(rng.randint(1, 3), rng.randint(1, 6))] if rng.random() < 0.5 else [])
+    wfs = []
+    for nr, nc in dims:
+        w = {"mask": random_mask(rng, nr, nc, rng.choice(["rand", "rand", "disc", "full"]) if nr == nc else rng.choice(["rand", "full"]))}
+        w.update(_sensor(rng, D, max(nr, nc), unit))
+        wfs.append(w)
+    layers = [_layer(rng) for _ in range(nl)]
+    if nl >= 6:
+        for _ in range(rng.randint(1, 3)):       # several sheets in one altitude bin
+            i, j = rng.sample(range(nl), 2)
+            layers[j] = dict(layers[i], r0=layers[i]["r0"] * rng.choice([0.37, 2.0, 3.1]))
+    cfg = {"D": D, "wfs": wfs, "layers": layers, "class": "big:" + shape}
+    return assign_types(cfg, rng)
+
+
+EXTREMES = ("r0-scale", "L0-small", "wide-field", "low-lgs", "near-gs", "ngs-as-infinity", "small-scale", "huge-telescope",
+            "identical-sensors", "unsigned-args")
+
+
+def gen_extreme(rng, kind=None):
+    """parameter magnitudes and boundary values gen_cfg never draws (all inside the property's domain: positive r0, L0, diameters,
+    wavelengths; every layer strictly below every finite guide-star altitude)"""
+    kind = kind or rng.choice(EXTREMES)
+    cfg = gen_cfg(rng, max_total=10, types=False)
+    ws, ls = cfg["wfs"], cfg["layers"]
+    kinds = ALL_KINDS
+    if kind == "r0-scale":                      # Fried parameters of a millimetre / of a hundred metres
+        f = 10.0 ** rng.choice([-3, -2, 2, 3])
+        for l in ls:
+            l["r0"] *= f
+    elif kind == "L0-small":                    # outer scale below the sub-aperture / pupil size (saturated structure function)
+        for l in ls:
+            l["L0"] = math.exp(rng.uniform(math.log(0.05), math.log(2.0)))
+    elif kind == "wide-field":                  # guide stars arc-minutes apart
+        f = rng.uniform(5, 15)
+        for w in ws:
+            w["gs_pos"] = [v * f for v in w["gs_pos"]]
+        if all(w["gs_pos"] == [0.0, 0.0] for w in ws):
+            ws[-1]["gs_pos"] = [rng.uniform(200, 600), -rng.uniform(200, 600)]
+    elif kind == "low-lgs":                     # Rayleigh beacons at 8-12 km, layers below them
+        g = [rng.uniform(8000., 12000.) for _ in ws]
+        for w, a in zip(ws, g):
+            if w["gs_alt"] != 0 or rng.random() < 0.5:
+                w["gs_alt"] = a
+        for l in ls:
+            l["alt"] = l["alt"] / 18000. * 0.9 * min(g)
+    elif kind == "near-gs":                     # a layer just below a beacon: the projected sub-apertures shrink to 0.5-3 %
+        if all(w["gs_alt"] == 0 for w in ws):
+            ws[rng.randrange(len(ws))]["gs_alt"] = rng.uniform(20000., 30000.)
+        g = min(w["gs_alt"] for w in ws if w["gs_alt"] != 0)
+        ls.insert(rng.randrange(len(ls) + 1), dict(_layer(rng), alt=g * rng.uniform(0.97, 0.995)))
+        for l in ls:                            # L0 / projected sub-aperture stays <= ~2e5 as in gen_cfg: beyond that the closed form
+            l["L0"] = math.exp(rng.uniform(math.log(2.0), math.log(200.)))   # 1 - x^(5/6) K(x) itself loses digits (1.1e-6 seen at 1e7)
+        kinds = EXACT_KINDS                     # a single-precision altitude would lose five digits of the cone factor
+    elif kind == "ngs-as-infinity":             # the natural guide stars given at infinity / very far / minus zero instead of 0
+        if all(w["gs_alt"] != 0 for w in ws):
+            ws[rng.randrange(len(ws))]["gs_alt"] = 0.0
+        v = rng.choice([float("inf"), 1e12, -0.0])
+        for w in ws:
+            if w["gs_alt"] == 0:
+                w["gs_alt"] = v
+        kinds = tuple(k for k in EXACT_KINDS if k not in INT_KINDS)
+    elif kind == "small-scale":                 # a centimetre-class pupil
+        f = rng.choice([1e-2, 1e-3])
+        cfg["D"] *= f
+        for w in ws:
+            w["diam"] *= f
+        for l in ls:
+            l["L0"] = math.exp(rng.uniform(math.log(2.0), math.log(200.)))
+        kinds = tuple(k for k in ALL_KINDS if k not in INT_KINDS)
+    elif kind == "huge-telescope":
+        f = 100. / cfg["D"]
+        cfg["D"] = 100.
+        for w in ws:
+            w["diam"] *= f
+    elif kind == "identical-sensors":           # one sensor listed twice (exactly singular matrix)
+        k = rng.randrange(len(ws))
+        ws.insert(rng.randrange(len(ws) + 1), copy.deepcopy(ws[k]))
+    cfg["class"] = "extreme:" + kind
+    if kind == "unsigned-args":                 # altitudes, wavelengths (nm), r0, L0 ALL as unsigned integer arrays (differences wrap there)
+        if all(w["gs_alt"] == 0 for w in ws):
+            ws[rng.randrange(len(ws))]["gs_alt"] = rng.uniform(20000., 30000.)
+        for w in ws:
+            w["lam"] = float(round(w["lam"] * 1e9 if w["lam"] < 1 else w["lam"]))
+        assign_types(cfg, rng, kinds=("f64", "list", "i32"), p_plain=0.0)
+        cfg["types"].update({f: "u64" for f in ("gs_alt", "lalt", "lam", "r0", "L0")})
+        for f in ("gs_alt", "lalt", "lam", "r0", "L0"):
+            vals, put = _field_values(cfg, f)
+            for i, v in enumerate(vals):
+                put(i, max(float(round(v)), 1.0 if f in ("lam", "r0", "L0") else 0.0))
+        return cfg
+    return assign_types(cfg, rng, kinds=kinds)
+
+
+def sibling(cfg, field, rng):
+    """the same system with ONE constructor argument changed (still inside the domain); returns (attribute name, new cfg)"""
+    ws, ls = cfg["wfs"], cfg["layers"]
+    if field == "r0":
+        f = rng.choice([0.5, 2.0, 3.1])
+        return "layer_r0s", retyped(cfg, "r0", layers=[dict(l, r0=l["r0"] * f) for l in ls])
+    if field == "L0":
+        f = rng.choice([0.5, 2.0, 7.3])
+        return "layer_L0s", retyped(cfg, "L0", layers=[dict(l, L0=l["L0"] * f) for l in ls])
+    if field == "lalt":
+        return "layer_altitudes", retyped(cfg, "lalt", layers=[dict(l, alt=l["alt"] * 0.5 + 300.) for l in ls])
+    if field == "gs_pos":
+        dx, dy = rng.uniform(5, 25), rng.uniform(-25, -5)
+        return "gs_positions", retyped(cfg, "gs_pos", wfs=[dict(w, gs_pos=[w["gs_pos"][0] + dx * (k + 1), w["gs_pos"][1] + dy * (k + 1)])
+                                                          for k, w in enumerate(ws)])
+    if field == "gs_alt":
+        k = rng.randrange(len(ws))
+        return "gs_altitudes", retyped(cfg, "gs_alt", wfs=[dict(w, gs_alt=(45000. if w["gs_alt"] == 0 else 0.0) if i == k else w["gs_alt"])
+                                                           for i, w in enumerate(ws)])
+    if field == "lam":
+        return "wfs_wavelengths", retyped(cfg, "lam", wfs=[dict(w, lam=w["lam"] * rng.choice([0.5, 2.0, 3.0])) for w in ws])
+    if field == "diam":
+        return "subap_diameters", retyped(cfg, "diam", wfs=[dict(w, diam=w["diam"] * rng.choice([0.8, 1.25])) for w in ws])
+    out = retyped(cfg, "D", D=cfg["D"] + 1.0)
+    if "types" in out:
+        out["types"] = {k: v for k, v in out["types"].items() if k != "D"}
+    return "telescope_diameter", out
+
+
+SIBLING_FIELDS = ("r0", "L0", "lalt", "gs_pos", "gs_alt", "lam", "diam", "D")
+
+
+def check_histories(cfg, rng, fail, threads=1, nsteps=3):
+    """ONE object re-used while the caller changes one attribute after the other and rebuilds (a loop over seeing conditions,
+    asterisms, wavelengths), and fresh objects built in between: every matrix must be the covariance of the configuration the
+    object holds at that moment; putting the old value back must give the first matrix again"""
+    def close(m, c):
+        exp, _ = gram_truth(c)
+        m = numpy.asarray(m).astype(float)
+        if m.shape != exp.shape or not numpy.isfinite(m).all():
+            return float("inf"), numpy.abs(exp).max()
+        return numpy.abs(m - exp).max(), numpy.abs(exp).max()
+
+    with numpy.errstate(all="ignore"):
+        cm = make_object(cfg, threads)
+        first = cm.make_covariance_matrix().copy()
+        cur = cfg
+        for field in rng.sample(SIBLING_FIELDS, nsteps):
+            attr, nxt = sibling(cur, field, rng)
+            old = getattr(cm, attr)
+            setattr(cm, attr, make_inputs(nxt)[attr])
+            m = cm.make_covariance_matrix().copy()
+            err, scale = close(m, nxt)
+            if not err <= TOL * scale:
+                fail("history:attribute-changed:%s" % attr, "after %s of an existing object was changed and make_covariance_matrix() re-run "
+                     "(threads=%d) the matrix differs from the covariance of the slopes of the NEW configuration by %.3g (max |entry| %.3g)"
+                     % (attr, threads, err, scale), nxt)
+                return
+            fresh = build(nxt, threads)
+            err, scale = close(fresh, nxt)
+            if not err <= TOL * scale:
+                fail("history:after-sibling:%s" % attr, "a fresh object (threads=%d) built right after another object that differs only in "
+                     "%s: matrix differs from the covariance of the slopes by %.3g (max |entry| %.3g)" % (threads, attr, err, scale), nxt)
+                return
+            setattr(cm, attr, old)
+            back = cm.make_covariance_matrix().copy()
+            if back.shape != first.shape or not numpy.array_equal(back, first):
+                fail("history:attribute-restored:%s" % attr, "%s changed, rebuilt, changed back, rebuilt (threads=%d): not the first matrix "
+                     "again (max difference %.3g)" % (attr, threads, numpy.abs(back.astype(float) - first).max()
+                                                      if back.shape == first.shape else float("nan")), cfg)
+                return
+            setattr(cm, attr, make_inputs(nxt)[attr])      # keep going from the changed system (more steps than one)
+            cm.make_covariance_matrix()
+            first = build(nxt, threads)
+            cur = nxt
 
 
 # --------------------------------------------------------------------------------------------- Lean driver lines
@@ -593,7 +916,7 @@ def arggen(name, rng):
 
 
 # --------------------------------------------------------------------------------------------- oracle driver
-def oracle(chk, n, n_scal, n_mp, exhaustive):
+def oracle(chk, n, n_scal, n_mp, exhaustive, n_big=0, n_ext=0, n_hist=0):
     rng = chk.rng
 
     def run_one(cfg, tag, extra=True):
@@ -601,6 +924,8 @@ def oracle(chk, n, n_scal, n_mp, exhaustive):
         for c in classes(cfg):
             chk.count(c)
         chk.case(("oracle", json.dumps(cfg, sort_keys=True)), sample={"cfg": cfg} if chk.oracle_cases <= 2 else None)
+        if "class" in cfg:
+            chk.count(cfg["class"])
 
         def fail(key, what, cfg_replay=None):
             chk.fail(key, what, {"cfg": cfg_replay or cfg, "what": tag})
@@ -623,31 +948,79 @@ def oracle(chk, n, n_scal, n_mp, exhaustive):
         except Exception as ex:
             chk.fail("raises:" + type(ex).__name__, "make_covariance_matrix raised %s: %s" % (type(ex).__name__, ex),
                      {"cfg": cfg, "what": "scalings"})
+    # round 5: sizes beyond gen_cfg's, parameter magnitudes / boundary values, one object re-used over a sequence of changes
+    for i in range(n_big):
+        run_one(gen_big(rng, thorough=exhaustive, shape=["one-large", "two-medium", "many-sensors", "many-layers", "thin"][i % 5]),
+                "big", extra=False)
+    for i in range(n_ext):
+        run_one(gen_extreme(rng, EXTREMES[i % len(EXTREMES)]), "extreme", extra=i % 3 == 0)
+    for i in range(n_hist):
+        cfg = gen_cfg(rng, max_total=8) if i % 5 else gen_extreme(rng)
+        chk.oracle_cases += 1
+        chk.count("history")
+        chk.case(("history", json.dumps(cfg, sort_keys=True)))
+        try:
+            check_histories(cfg, rng, lambda key, what, c=None: chk.fail(key, what, {"cfg": c or cfg, "start": cfg, "what": "history"}))
+        except Exception as ex:
+            chk.fail("raises:" + type(ex).__name__, "a changed attribute + make_covariance_matrix raised %s: %s" % (type(ex).__name__, ex),
+                     {"cfg": cfg, "what": "history"})
     # the multi-process assembly path (real pool)
-    for _ in range(n_mp):
+    for i in range(n_mp):
         # a system on which the two assembly paths have room to differ: >= 2 sensors whose projected diameters differ at an
-        # elevated layer (cov_xy != cov_yx), different numbers of sub-apertures if possible
-        for _try in range(200):
-            cfg = gen_cfg(rng, max_total=8)
+        # elevated layer (cov_xy != cov_yx), different numbers of sub-apertures if possible; round 5: in turn also two sheets of
+        # turbulence at one altitude, a natural guide star listed after a laser one, unequal sub-aperture counts, a larger system
+        for _try in range(400):
+            cfg = gen_cfg(rng, max_total=8) if i % 4 != 3 else gen_big(rng, shape=rng.choice(["two-medium", "many-sensors", "many-layers"]))
             ws = cfg["wfs"]
             pd = lambda w, L: w["diam"] * (1 - (L["alt"] / w["gs_alt"] if w["gs_alt"] else 0))
-            if len(ws) >= 2 and any(L["alt"] > 0 and len({round(pd(w, L), 12) for w in ws}) > 1 for L in cfg["layers"]):
-                break
+            if not (len(ws) >= 2 and any(L["alt"] > 0 and len({round(pd(w, L), 12) for w in ws}) > 1 for L in cfg["layers"])):
+                continue
+            if i % 4 == 0 and not any(a["alt"] == b["alt"] and a["L0"] == b["L0"] and a["r0"] != b["r0"]
+                                      for k, a in enumerate(cfg["layers"]) for b in cfg["layers"][k + 1:]):
+                continue
+            if i % 4 == 1 and not any(a["gs_alt"] != 0 and b["gs_alt"] == 0 for k, a in enumerate(ws) for b in ws[k + 1:]):
+                continue
+            if i % 4 == 2 and len({sum(map(sum, w["mask"])) for w in ws}) == 1:
+                continue
+            break
+        thr = 2 if i < 2 else rng.choice([2, 3, 4])
         chk.oracle_cases += 1
-        chk.count("threads=2")
+        chk.count("threads=%d" % thr)
         for c in classes(cfg):
             chk.count("mp:" + c)
         chk.case(("mp", json.dumps(cfg, sort_keys=True)))
+        inputs = make_inputs(cfg)
+        snap = snapshot(inputs)
         try:
-            got = build(cfg, threads=2)
+            with numpy.errstate(all="ignore"):
+                cm = object_from(inputs, thr, (cfg.get("types") or {}).get("call"))
+                got = cm.make_covariance_matrix().copy()
+                got2 = cm.make_covariance_matrix().copy()
         except Exception as ex:
-            chk.fail("mp:raises", "threads=2 raised %s: %s" % (type(ex).__name__, ex), {"cfg": cfg, "what": "mp"})
+            chk.fail("mp:raises", "threads=%d raised %s: %s" % (thr, type(ex).__name__, ex), {"cfg": cfg, "what": "mp"})
             continue
         exp, _ = gram_truth(cfg)
-        if got.shape != exp.shape or numpy.abs(got - exp).max() > TOL * numpy.abs(exp).max():
-            chk.fail("mp:entry", "threads=2: matrix differs from the covariance of the slopes by %.3g (scale %.3g)"
-                     % (numpy.abs(got - exp).max() if got.shape == exp.shape else float("nan"), numpy.abs(exp).max()),
+        if got.shape != exp.shape or not numpy.isfinite(got).all() or numpy.abs(got - exp).max() > TOL * numpy.abs(exp).max():
+            chk.fail("mp:entry", "threads=%d: matrix differs from the covariance of the slopes by %.3g (scale %.3g)"
+                     % (thr, numpy.abs(got - exp).max() if got.shape == exp.shape else float("nan"), numpy.abs(exp).max()),
                      {"cfg": cfg, "what": "mp"})
+            continue
+        if not (got == got.T).all():
+            chk.fail("mp:symmetric", "threads=%d: the matrix is not exactly symmetric" % thr, {"cfg": cfg, "what": "mp"})
+        if got2.shape != got.shape or not numpy.array_equal(got, got2):
+            chk.fail("mp:repeat-call", "threads=%d: two calls of make_covariance_matrix() on one object differ by %.3g"
+                     % (thr, numpy.abs(got2.astype(float) - got).max() if got2.shape == got.shape else float("nan")), {"cfg": cfg, "what": "mp"})
+        mutated = [f for f in inputs if not same_as_snapshot(inputs[f], snap[1][f])]
+        if mutated:
+            chk.fail("mp:inputs-mutated", "threads=%d: the caller's constructor arguments were modified by the build: %s"
+                     % (thr, ", ".join(mutated)), {"cfg": cfg, "what": "mp"})
+        if i % 2 == 0:
+            try:
+                check_histories(cfg, rng, lambda key, what, c=None: chk.fail("mp:" + key, what, {"cfg": c or cfg, "start": cfg, "what": "mp-history"}),
+                                threads=thr, nsteps=2)
+            except Exception as ex:
+                chk.fail("mp:raises", "threads=%d: a changed attribute + make_covariance_matrix raised %s: %s" % (thr, type(ex).__name__, ex),
+                         {"cfg": cfg, "what": "mp-history"})
     if exhaustive:
         # every 0/1 mask on 2x2 for two sensors (one off-axis LGS), every mask on 3x3 for one sensor
         import itertools
@@ -688,7 +1061,12 @@ def run(chk):
                 "(float32 storage). oracle: every entry vs a brute-force Gram matrix computed from the structure function alone "
                 "(1e-5·max), exact symmetry, λ_min ≥ -1e-5·trace, repeat-call identity, mirror = reflected lower triangle, layer "
                 "additivity/order, r0^(-5/3), λ_iλ_j (2e-6·max); the caller's argument objects compared with a snapshot taken before "
-                "the call and a second object built from the same argument objects compared bitwise; distinct = distinct configurations")
+                "the call and a second object built from the same argument objects compared bitwise; round 5: the same oracle on large "
+                "systems (one sensor up to 10x10 / 14x14, 5-12 sensors, 6-35 layers, 1xN masks), extreme magnitudes (r0 x 1e+-3, L0 below "
+                "the sub-aperture, arc-minute fields, Rayleigh beacons, a layer 0.5-3 % below a beacon, NGS at inf / 1e12 / -0.0, cm-class "
+                "and 100 m pupils, a sensor listed twice, unsigned-integer arguments), and ONE object re-used while one attribute after "
+                "the other is changed, rebuilt (1e-5.max against the covariance of the NEW configuration) and restored (bitwise the "
+                "first matrix), serial and with a real pool; distinct = distinct configurations")
     chk.assumptions = [
         "H2: the von Karman structure function (with D(0)=0) is a squared-distance kernel ‖φu−φv‖² on ℝ² — hypothesis `IsSqDist` "
         "of the theorems, not proved (Mathlib has no Bessel functions); sampled by the oracle's minimum-eigenvalue test",
@@ -705,6 +1083,14 @@ def run(chk):
         "constructor arguments are generated as float64/float32/integer ndarrays, lists, tuples of the same values (the theorems are "
         "about the values); float32 arguments make the library do part of the geometry in single precision — covered by the "
         "1e-5 tolerance (observed 5.6e-7), excluded from the bit-exact geometry correspondence and from the 2e-6 scaling laws",
+        "round 5 argument forms: masks as int64/int32/uint8/bool/float64/float32, list / tuple / one 3-D array, C / Fortran / strided / "
+        "read-only; 1-D and (n,2) arguments also as lists of NumPy scalars, int32, uint64 (not the diameters, not the signed guide-star "
+        "offsets), strided / negative-stride / read-only / Fortran / stride-0 broadcast float64 arrays; telescope_diameter, n_wfs, n_layers "
+        "as Python / NumPy scalars or 0-d array; constructor called by keyword or positionally, threads given or defaulted, through "
+        "aotools.turbulence.slopecovariance, aotools.turbulence and aotools. UNSIGNED sub-aperture diameters are NOT generated: the "
+        "unchanged library returns a wrong matrix there (d2 - d1 wraps in compute_covariance_xx/yy) — reported, undecided",
+        "L0 / projected sub-aperture size is kept <= ~2e5 (as before): beyond that the closed form 1 - x^(5/6) K_5/6(x) itself loses digits "
+        "(1.1e-6 of the largest entry seen at 1e7), which says nothing about the assembly",
     ]
     chk.notes = ["margins measured on the repaired tree (3000 generated configurations): largest |entry - covariance| = 1.1e-7 of the "
                  "largest entry (tolerance 1e-5), smallest eigenvalue >= -1.3e-8 of the trace (tolerance 1e-5); every breaking edit tried "
@@ -716,7 +1102,10 @@ def run(chk):
                  "stand-in placement with off-axis guide stars: exact on every single-layer case",
                  "mirror search: the assembled matrix for wavelengths λ·2^m is exactly 4^m times the one for λ, so the mirror step is "
                  "searched over m on the real pre-mirror matrix and any hit is confirmed through make_covariance_matrix() with the "
-                 "rescaled wavelengths before it is reported"]
+                 "rescaled wavelengths before it is reported",
+                 "round 5, unchanged tree, 12 seeds x (40 large + 180 extreme) configurations + 12 x 60 histories: largest |entry - covariance| "
+                 "3.6e-7 (many layers), 1.5e-7 (layer just below a beacon), 1.3e-7 (cm-class pupil), <= 9.2e-8 elsewhere; 5.8e-7 with a "
+                 "float32 argument (tolerance 1e-5); smallest eigenvalue >= -8.7e-9 of the trace; attribute-restored rebuilds bitwise equal"]
     meta = t1check.regenerate(chk)
     chk.build_and_audit("AoVerif.Props.C01", "AoVerif.Props.C01", REQUIRED)
     if meta is not None:
@@ -734,6 +1123,6 @@ def run(chk):
     except common.LeanError as ex:
         chk.broke("correspondence", "C01 driver does not build / run", str(ex))
     if quick:
-        oracle(chk, 250, 40, 2, False)
+        oracle(chk, 250, 40, 4, False, n_big=10, n_ext=30, n_hist=40)
     else:
-        oracle(chk, 12000, 1500, 8, True)
+        oracle(chk, 12000, 1500, 16, True, n_big=300, n_ext=900, n_hist=1500)
